@@ -273,6 +273,10 @@ def run():
     ck = Check("C14", level="proof")
     from ..translate import gen_codegen
     info = gen_codegen.generate()
+    from ..translate import gen_lex_tables
+    linfo = gen_lex_tables.generate()      # C17's translator (read-only use): fmt_text_lexes is stated on Model/LexerGen.v, which needs Gen/GenLexTables.v
+    if "error" in linfo and "error" not in info:
+        ck.coverage["lexer_translator_error"] = linfo["error"]
     pr = ck.prove()
     fmt_keywords = set(info.get("fmt_keywords") or O.FMT_KEYWORDS_FALLBACK) if "error" not in info else O.FMT_KEYWORDS_FALLBACK
     import os
